@@ -362,6 +362,36 @@ impl<K: El, V: El> Mon<K, V> {
                         s.pay = arg;
                         St::Done
                     }
+                    // an occupied handle made by Entry::insert on a vacant entry carries no spare
+                    // key: replace_key / replace_entry are documented to panic there (and do so
+                    // before touching the map), in every build profile
+                    (St::O(o), O_REPLACE_KEY | O_REPLACE_ENTRY) if okey_none => {
+                        let v = V::mk(arg);
+                        dropped.push(v.id());
+                        let r = catch(move || {
+                            if code == O_REPLACE_KEY {
+                                drop(v);
+                                let _ = o.replace_key();
+                            } else {
+                                let _ = o.replace_entry(v);
+                            }
+                        });
+                        match r {
+                            Err(p) => {
+                                crate::exec::rethrow_fuse(&p);
+                                if !p.contains("Option::unwrap()") {
+                                    return Err(Viol { extra: Vec::new(), prop: "C12", more: &["C01"], msg: format!("replace_key / replace_entry on a handle made by Entry::insert panicked with an undocumented message: {p}") });
+                                }
+                                act.push(2);
+                                exp.push(2);
+                                self.stats.expected_panics += 1;
+                            }
+                            Ok(()) => {
+                                return Err(Viol { extra: Vec::new(), prop: "C12", more: &["C01"], msg: "replace_key / replace_entry on a handle made by Entry::insert returned normally (documented to panic: the handle has no key to put in)".into() });
+                            }
+                        }
+                        St::Done
+                    }
                     // a step that does not apply to the current handle ends the chain
                     (s, _) => {
                         st = s;
